@@ -93,6 +93,12 @@ LeaveChecks(cs, stk, f, ev) ==
            ~(\E i \in 1..Len(stk) : stk[i].k = "Compiled") /\
            ~( ev.path = PathAt(stk, rootop) \/ (nk > 0 /\ ~lastk.ok /\ ev.path = lastk.path) )
         THEN <<"C18.path">> ELSE <<>>)
+    \* an error of the class its failing last child left with is that child's error passing through (no class of the library catches an
+    \* error only to raise the same class again from further out): the path keeps the inner names
+    \o (IF "model" \notin DOMAIN cs /\ ~ev.ok /\ IsConstructError(ev.err) /\ ev.err \notin {"StopFieldError", "CancelParsing"} /\
+           ~(\E i \in 1..Len(stk) : stk[i].k = "Compiled") /\
+           nk > 0 /\ ~lastk.ok /\ lastk.err = ev.err /\ ev.path # lastk.path
+        THEN <<"C18.path-shortened">> ELSE <<>>)
 
 \* the three transitions of the machine on the call record cs (events either recorded or prescribed by Sem)
 EnterOn(cs) == LET ev == cs.events[pc + 1] IN
